@@ -107,6 +107,9 @@ type point struct {
 	ErrPages  []uint32 `json:"err_pages,omitempty"`  // ReadAt failed although the entry's file exists (or there is no entry)
 	GonePages []uint32 `json:"gone_pages,omitempty"` // the index entry names a file that is not on the replica any more; a cold read fails with BUSY
 	Missing   []uint32 `json:"missing_pages,omitempty"` // pages of the restored database without an index entry (a cached page can hide this from ReadAt)
+	EverTT    bool     `json:"ever_tt"`                 // SetTargetTime was called on this instance before this point
+	Hydrated  bool     `json:"hydrated"`                // reads were served from the hydrated local file at this point
+	HydTXID   uint64   `json:"hyd_txid,omitempty"`
 	PlanDef   string   `json:"plan_def,omitempty"`      // name of the definition holding the restore plan behind the view (schedule kinds)
 	PrevOK    bool     `json:"prev_ok"`              // previous point of this instance was clean
 	BytesOK   bool     `json:"bytes_ok"`
@@ -135,6 +138,7 @@ type hist struct {
 	dir      string
 	ps       int
 	cache    int
+	hyd      bool // open through VFS.Open with HydrationEnabled and wait for hydration to complete
 	script   []string
 	sqldb    *sql.DB
 	db       *litestream.DB
@@ -156,10 +160,15 @@ type hist struct {
 	rebuilt    bool      // a ResetTime happened and no poll has been applied since
 	lockedPoll int       // line of the vfs_poll case of a poll staged under the current lock
 	planSeq    int
+	everTT     bool
 }
 
 func (h *hist) scriptText() string {
-	return fmt.Sprintf("ps=%d cache=%d : %s", h.ps, h.cache, strings.Join(h.script, " ; "))
+	hy := 0
+	if h.hyd {
+		hy = 1
+	}
+	return fmt.Sprintf("ps=%d cache=%d hyd=%d : %s", h.ps, h.cache, hy, strings.Join(h.script, " ; "))
 }
 
 func (h *hist) exec(q string, args ...any) error {
@@ -387,7 +396,7 @@ func (h *hist) check(kind string, modelLine int, ts time.Time) (ok bool) {
 	st := h.vf.IndexSnapshot()
 	szBytes, szPages := h.sizePages()
 	p := point{ID: e.nextID, History: h.id, Instance: h.instance, Kind: kind, Script: h.scriptText(),
-		Pos: uint64(st.Pos), ModelLine: modelLine, SizeVFS: szBytes, PrevOK: h.prevOK, PlanDef: h.planDef}
+		Pos: uint64(st.Pos), ModelLine: modelLine, SizeVFS: szBytes, PrevOK: h.prevOK, PlanDef: h.planDef, EverTT: h.everTT}
 	e.nextID++
 	ref, src, err := h.restoreRef(uint64(st.Pos), ts)
 	if err != nil {
@@ -412,6 +421,11 @@ func (h *hist) check(kind string, modelLine int, ts time.Time) (ok bool) {
 		if missing && int(ie.Pgno)*h.ps <= len(ref) {
 			gone[ie.Pgno] = true
 		}
+	}
+	if _, complete, htx, _ := h.vf.HydrationState(); complete {
+		// reads come from the local hydrated file: nothing is fetched through the index
+		p.Hydrated, p.HydTXID = true, uint64(htx)
+		gone = map[uint32]bool{}
 	}
 	buf := make([]byte, h.ps)
 	badSet, errSet := map[uint32]bool{}, map[uint32]bool{}
@@ -513,16 +527,46 @@ func (h *hist) openVFS() error {
 	if err != nil {
 		return nil // nothing to open yet
 	}
-	vf := litestream.NewVFSFile(h.client, "db", QuietLogger())
-	vf.PollInterval = 24 * time.Hour
-	vf.CacheSize = h.cache
-	if err := vf.Open(); err != nil {
-		return fmt.Errorf("VFSFile.Open: %w", err)
+	var vf *litestream.VFSFile
+	if h.hyd {
+		// the public route: VFS.Open with HydrationEnabled (a fresh hydration file per instance)
+		v := litestream.NewVFS(h.client, QuietLogger())
+		v.PollInterval = 24 * time.Hour
+		v.CacheSize = h.cache
+		v.HydrationEnabled = true
+		v.HydrationPath = filepath.Join(h.dir, fmt.Sprintf("hydration-%d.db", h.instance+1))
+		sf, _, err := v.Open("db", sqlite3vfs.OpenMainDB|sqlite3vfs.OpenReadOnly)
+		if err != nil {
+			return fmt.Errorf("VFS.Open: %w", err)
+		}
+		vf = sf.(*litestream.VFSFile)
+		// hydration runs in a goroutine started by Open; every schedule starts once it is complete
+		deadline := time.Now().Add(20 * time.Second)
+		for {
+			_, complete, _, herr := vf.HydrationState()
+			if herr != nil {
+				return fmt.Errorf("hydration: %w", herr)
+			}
+			if complete {
+				break
+			}
+			if time.Now().After(deadline) {
+				return fmt.Errorf("hydration did not complete")
+			}
+			time.Sleep(200 * time.Microsecond)
+		}
+	} else {
+		vf = litestream.NewVFSFile(h.client, "db", QuietLogger())
+		vf.PollInterval = 24 * time.Hour
+		vf.CacheSize = h.cache
+		if err := vf.Open(); err != nil {
+			return fmt.Errorf("VFSFile.Open: %w", err)
+		}
 	}
 	h.vf = vf
 	h.instance++
 	h.prevOK = true
-	h.locked, h.target, h.planDef, h.rebuilt, h.lockedPoll = false, time.Time{}, "", false, 0
+	h.locked, h.target, h.planDef, h.rebuilt, h.lockedPoll, h.everTT = false, time.Time{}, "", false, 0, false
 	line, err := h.emitOpenCase(plan, "open")
 	if err != nil {
 		return err
@@ -650,13 +694,15 @@ func (h *hist) lockCase(kind int, lt sqlite3vfs.LockType) {
 func (h *hist) stepCase(opSx Sx, class string, do func() error) (int, error) {
 	pre := h.vf.IndexSnapshot()
 	preT := h.vf.TargetTime() != nil
+	_, preH, _, _ := h.vf.HydrationState()
 	err := do()
 	post := h.vf.IndexSnapshot()
 	postT := h.vf.TargetTime() != nil
+	_, postH, _, _ := h.vf.HydrationState()
 	_, szPages := h.sizePages()
 	line := h.e.line()
-	h.e.cw.Add("vfs_step", L(stateSx(pre), B(preT), opSx), L(B(err == nil), stateSx(post), B(postT), I(szPages)),
-		fmt.Sprintf("step/%s lock=%d target=%v pending=%s replace=%v", class, pre.LockType, preT, bucket(len(pre.Pending)), pre.PendingReplace),
+	h.e.cw.Add("vfs_step", L(stateSx(pre), B(preT), opSx, B(preH)), L(B(err == nil), stateSx(post), B(postT), I(szPages), B(postH)),
+		fmt.Sprintf("step/%s lock=%d target=%v pending=%s replace=%v hydrated=%v", class, pre.LockType, preT, bucket(len(pre.Pending)), pre.PendingReplace, preH),
 		len(pre.Pending) > 0 || pre.PendingReplace || preT)
 	return line, err
 }
@@ -729,7 +775,7 @@ func (h *hist) stepSetTarget(k int) error {
 	if err != nil {
 		return fmt.Errorf("SetTargetTime: %w", err)
 	}
-	h.target, h.rebuilt, h.lockedPoll = ts, false, 0
+	h.target, h.rebuilt, h.lockedPoll, h.everTT = ts, false, 0, true
 	h.prevOK = true
 	return h.afterCheck(h.check("tt-set", line, ts))
 }
@@ -934,6 +980,7 @@ func (h *hist) run(op string) (err error) {
 		if err := h.vf.SetTargetTime(h.ctx, ts); err != nil {
 			return fmt.Errorf("SetTargetTime: %w", err)
 		}
+		h.everTT = true
 		line, err := h.emitOpenCase(plan, "timetravel")
 		if err != nil {
 			return err
@@ -984,6 +1031,9 @@ var directed = []struct {
 	{"tt-under-lock-vacuum", 1024, "I 60 900;S;OPEN;D 1 2;VAC;S;I 5 900;S;LK;PL;ST 2;PL;UL;PL;RT"},
 	{"reset-under-lock-after-further-sync", 1024, "I 20 900;S;OPEN;U 0 2;S;LK;PL;U 1 2;S;RT;UL;POLL"},
 	{"reset-under-lock-shrink-then-growth", 1024, "I 60 900;S;OPEN;D 0 2;S;V 3;S;LK;PL;I 30 900;S;RT;UL;I 3 50;S;POLL"},
+	{"hyd-tt-updates-during-window", 1024, "I 20 900;S;I 5 900;S;OPEN;ST 1;U 0 2;S;PL;RT;POLL;U 1 3;S;POLL"},
+	{"hyd-poll-shrink", 1024, "I 60 900;S;OPEN;U 0 3;S;POLL;D 0 2;S;POLL;VAC;S;POLL;I 5 900;S;POLL"},
+	{"hyd-compaction-of-source-files", 1024, "I 20 900;S;C1;U 0 2;S;OPEN;C1;R0;POLL;U 1 2;S;C1;C2;R0;POLL;U 0 3;S;POLL"},
 	{"locked-polls", 1024, "I 30 300;S;OPEN;I 30 300;S;LPOLL;D 0 2;S;VAC;S;LPOLL;I 3 30;S;LPOLL"},
 	{"time-travel", 1024, "I 20 300;S;I 20 300;S;OPEN;D 0 2;S;V 2;S;I 4 40;S;POLL;TT 0;TT 1;TT 2;TT 3"},
 }
@@ -1075,8 +1125,8 @@ func randomScript(r *rand.Rand) (int, []string) {
 	return ps, ops
 }
 
-func runHistory(e *env, id, ps, cache int, ops []string) {
-	h := &hist{e: e, id: id, dir: filepath.Join(e.root, fmt.Sprintf("h%d", id)), ps: ps, cache: cache}
+func runHistory(e *env, id, ps, cache int, hyd bool, ops []string) {
+	h := &hist{e: e, id: id, dir: filepath.Join(e.root, fmt.Sprintf("h%d", id)), ps: ps, cache: cache, hyd: hyd}
 	defer h.teardown()
 	if err := h.setup(); err != nil {
 		e.errs = append(e.errs, fmt.Sprintf("history %d setup: %v", id, err))
@@ -1099,6 +1149,7 @@ func main() {
 	out := fs.String("out", "", "output directory")
 	n := fs.Int("n", 20, "number of random histories")
 	seed := fs.Int64("seed", 1, "seed")
+	variants := fs.Int("variants", 3, "3: every directed schedule with all three variants; 2: large-cache variant thinned out")
 	script := fs.String("script", "", "run exactly this history: 'ps=<n> cache=<n> : op ; op ; ...'")
 	replay := fs.String("replay", "", "file holding a -script line")
 	_ = fs.Parse(args)
@@ -1127,18 +1178,27 @@ func main() {
 	_ = os.RemoveAll(root)
 	e := &env{cw: cw, root: root}
 	if *script != "" {
-		ps, cache, ops, err := parseScript(*script)
+		ps, cache, hyd, ops, err := parseScript(*script)
 		if err != nil {
 			fmt.Fprintln(os.Stderr, err)
 			os.Exit(2)
 		}
-		runHistory(e, 0, ps, cache, ops)
+		runHistory(e, 0, ps, cache, hyd, ops)
 	} else {
 		r := NewRand(*seed)
 		id := 0
-		for _, d := range directed {
-			for _, cache := range []int{1, 10 << 20} {
-				runHistory(e, id, d.ps, cache, strings.Split(d.script, ";"))
+		for di, d := range directed {
+			// every directed schedule: index path with a 1-page cache, index path with a 10 MiB cache,
+			// and with background hydration (reads from the hydrated local file once it is complete)
+			for _, vr := range []struct {
+				cache int
+				hyd   bool
+			}{{1, false}, {10 << 20, false}, {10 << 20, true}} {
+				if *variants == 2 && vr.cache != 1 && !vr.hyd && di%2 == 1 {
+					id++ // quick tier: the large-cache variant for every other pair of schedules
+					continue
+				}
+				runHistory(e, id, d.ps, vr.cache, vr.hyd, strings.Split(d.script, ";"))
 				id++
 			}
 		}
@@ -1148,7 +1208,7 @@ func main() {
 			if r.Intn(2) == 0 {
 				cache = 10 << 20
 			}
-			runHistory(e, id, ps, cache, ops)
+			runHistory(e, id, ps, cache, r.Intn(3) == 0, ops)
 			id++
 		}
 	}
@@ -1172,10 +1232,10 @@ func main() {
 	fmt.Printf("cases=%d points=%d bytes-level-failures=%d harness-errors=%d\n", cw.N, len(e.points), bad, len(e.errs))
 }
 
-func parseScript(s string) (ps, cache int, ops []string, err error) {
+func parseScript(s string) (ps, cache int, hyd bool, ops []string, err error) {
 	i := strings.Index(s, ":")
 	if i < 0 {
-		return 0, 0, nil, fmt.Errorf("script needs 'ps=<n> cache=<n> : ops'")
+		return 0, 0, false, nil, fmt.Errorf("script needs 'ps=<n> cache=<n> [hyd=1] : ops'")
 	}
 	for _, kv := range strings.Fields(s[:i]) {
 		if v, ok := strings.CutPrefix(kv, "ps="); ok {
@@ -1183,6 +1243,9 @@ func parseScript(s string) (ps, cache int, ops []string, err error) {
 		}
 		if v, ok := strings.CutPrefix(kv, "cache="); ok {
 			cache, _ = strconv.Atoi(v)
+		}
+		if v, ok := strings.CutPrefix(kv, "hyd="); ok {
+			hyd = v == "1"
 		}
 	}
 	if ps == 0 {
@@ -1196,5 +1259,5 @@ func parseScript(s string) (ps, cache int, ops []string, err error) {
 			ops = append(ops, op)
 		}
 	}
-	return ps, cache, ops, nil
+	return ps, cache, hyd, ops, nil
 }
